@@ -177,6 +177,6 @@ def check(case):
 
 SUBCHECKS = [
     Sub("motion", check, strategy=lambda tier: case_strategy(),
-        quick=3000, thorough=80000,
+        quick=4000, thorough=200000,
         min_share={"size:1": 0.08, "size:2": 0.08, "R:general": 0.3, "geom:near-collinear": 0.03}),
 ]
